@@ -11,14 +11,14 @@ CONSTANTS
   v2 = v2
   bad = bad
   unk = unk
-  Threads = {t1, t2, t3}
+  Threads = {t1}
   Main = t1
   Opts = {o1, o2}
   Vals = {v0, v1}
   Default <- Def2
   Bad = bad
   Unknown = unk
-  MaxNest <- Nest3
+  MaxNest <- NestA
   MaxMap = 2
 VIEW View
 INVARIANT TypeOK
